@@ -813,6 +813,20 @@ theorem vnormScaledSq_eq (e : ℤ) (u : Vec) : vnormScaledSq e u = vnormSq u := 
       = ((2 : ℚ) ^ e * (2 : ℚ) ^ (-e)) * ((2 : ℚ) ^ e * (2 : ℚ) ^ (-e)) * sumRange u.length (fun i => u.getD i 0 * u.getD i 0) := by ring
     _ = _ := by rw [h2]; ring
 
+/-- the Frobenius norm computed in the scaled domain is the plain one, for every exponent -/
+theorem normScaledSq_eq (e : ℤ) (A : Mat) : normScaledSq e A = normSq A := by
+  unfold normScaledSq normSq
+  have h2 : (2 : ℚ) ^ e * (2 : ℚ) ^ (-e) = 1 := by
+    rw [← zpow_add₀ (by norm_num : (2 : ℚ) ≠ 0)]; simp
+  have h : ∀ i j, (A.get i j * (2 : ℚ) ^ (-e)) * (A.get i j * (2 : ℚ) ^ (-e))
+      = ((2 : ℚ) ^ (-e) * (2 : ℚ) ^ (-e)) * (A.get i j * A.get i j) := fun i j => by ring
+  simp only [h, sumRange_mul_left]
+  calc (2 : ℚ) ^ e * (2 : ℚ) ^ e * ((2 : ℚ) ^ (-e) * (2 : ℚ) ^ (-e) *
+          sumRange A.rows fun i => sumRange A.cols fun j => A.get i j * A.get i j)
+      = ((2 : ℚ) ^ e * (2 : ℚ) ^ (-e)) * ((2 : ℚ) ^ e * (2 : ℚ) ^ (-e)) *
+          sumRange A.rows (fun i => sumRange A.cols fun j => A.get i j * A.get i j) := by ring
+    _ = _ := by rw [h2]; ring
+
 /-- the squared norm is the dot product of the vector with itself (`Norm() = sqrt(Dot(*this))` before the fix) -/
 theorem vnormSq_eq_dot (u : Vec) : dot u u = .ok (vnormSq u) := by simp [dot, vnormSq]
 
